@@ -16,6 +16,8 @@ KINDS_ACL = {
     "ace": "permit tcp any any eq 80", "ace2": "10 deny ip host 10.0.0.1 any", "remark": "remark hello world", "seqremark": "20 remark x",
     "stat": "statistics per-entry", "desc": "description text", "ignore": "ignore this",
     "bad": "permit tcp any any eq", "garbage": "foo bar", "badace": "permit ip 10.0.0.0 any", "digits": "10 20 permit ip any any",
+    "descr-x": "descriptionless deny ip any any", "ignored": "ignored-by-mistake permit tcp any any eq 22", "stat-x": "statistics-x per-entry",
+    "description-only": "description", "permitx": "permitted tcp any any", "remarkx": "remarks hello",
 }
 KINDS_AG = {
     "ios": {"host": "host 10.0.0.1", "subnet": "10.0.0.0 255.255.255.0", "seq": "10 host 10.0.0.2", "desc": "description members", "bad": "foo bar",
@@ -183,8 +185,22 @@ def _same_addr(item_line, src, platform):
     return sets.union_equal(a, b) is None
 
 
+def replay_line_to_oace(model, ob):
+    """native search: a non-empty line that yields no item, has no documented prefix and produces no warning naming it"""
+    for k, l in KINDS_ACL.items():
+        fails, _ = check_acl(((k,), "ios", "AceGroup"))
+        if fails:
+            f = fails[0]
+            return dict(violates=True, inputs=f["inputs"], what=f["what"], cmd=f.get("cmd"), key="ace_group.AceGroup._line_to_oace/post[accounted]")
+    return dict(violates=False)
+
+
 def main(chk):
+    from pyvc import contract as C
+    import contracts.c_lines  # noqa
+    C.REGISTRY["cisco_acl.ace_group.AceGroup._line_to_oace"].replay = replay_line_to_oace
     chk.prove(["c_lines"])
+    chk.replay_refuted()
     for q, ok in depth_obligations(["cisco_acl.helpers.is_line_for_acl"]):
         ob = Obligation(oid=f"{q}/depth", kind="depth", hyps=(), goal=z3.BoolVal(ok), target=q,
                         note="the function calls itself once per leading digit token: no bound on the recursion depth" if not ok else "no recursion")
